@@ -219,12 +219,14 @@ namespace bloch::runtime {
         double r = dist(rng);
 #ifdef BLOCH_VERIF
         r = VerifDraws::next(r);
-        VerifDraws::note('r', q, r, r < p1 ? 1 : 0);
 #endif
         bool one = r < p1;
         // Never keep a branch without amplitude (possible only through rounding of p1).
         if ((one ? p1 : p0) == 0.0)
             one = !one;
+#ifdef BLOCH_VERIF
+        VerifDraws::note('r', q, r, one ? 1 : 0);
+#endif
         double norm = std::sqrt(one ? p1 : p0);
         for (size_t i = 0; i < m_state.size(); ++i) {
             if (i & bit)
@@ -253,13 +255,15 @@ namespace bloch::runtime {
         double r = dist(rng);
 #ifdef BLOCH_VERIF
         r = VerifDraws::next(r);
-        VerifDraws::note('m', q, r, r < p1 ? 1 : 0);
 #endif
         int res = r < p1 ? 1 : 0;
         // Normalise by the kept branch's own weight (1 - p1 loses all precision when that
         // branch is improbable), and never keep a branch without amplitude.
         if ((res ? p1 : p0) == 0.0)
             res = !res;
+#ifdef BLOCH_VERIF
+        VerifDraws::note('m', q, r, res);
+#endif
         double norm = std::sqrt(res ? p1 : p0);
         for (size_t i = 0; i < m_state.size(); ++i) {
             if (((i & bit) ? 1 : 0) != res)
